@@ -749,3 +749,50 @@ def innermost_loop(body, block):
         return None
     cands.sort(key=lambda x: (x[0], x[1]))
     return cands[0][1], cands[0][2]
+
+
+def resolve_defs(body, sym, e, depth=2):
+    """The value(s) an expression stands for once the (multiply defined) variables in it are replaced by the expressions of their
+    live definitions (`depth` levels, at most 8 combinations). Lets a rule state "whatever is stored here derives from X on every
+    arm" without depending on how many arms / pattern alternatives the source uses."""
+    if depth <= 0:
+        return [e]
+    if e[0] == "phi":
+        out = []
+        for a in e[1]:
+            out.extend(resolve_defs(body, sym, a, depth))
+        return out[:8]
+    vs = []
+    for x in expr_walk(e):
+        if x[0] == "var" and x not in vs:
+            vs.append(x)
+    if not vs:
+        return [e]
+    live = body.live_blocks()
+    alts = [e]
+    for v in vs[:3]:
+        name = v[1]
+        locs = [int(name[1:])] if name.startswith("_") and name[1:].isdigit() else body.local_by_name(name)
+        defs = []
+        for l in locs:
+            for blk, si in body.defs.get(l, []):
+                if blk in live:
+                    d = sym.def_expr(blk, si)
+                    if not mentions(d, lambda s_: s_ == v):
+                        defs.append(d)
+        if not defs:
+            continue
+        nxt = []
+        for a in alts:
+            for d in defs:
+                nxt.extend(resolve_defs(body, sym, _subst_expr(a, v, d), depth - 1))
+        alts = nxt[:8]
+    return alts
+
+
+def _subst_expr(e, old, new):
+    if e == old:
+        return new
+    if not isinstance(e, tuple):
+        return e
+    return tuple(_subst_expr(x, old, new) if isinstance(x, tuple) else x for x in e)
